@@ -154,9 +154,9 @@ def fam_suppress(p: Dict[str, Any], problems: List[str], w: World) -> Tuple[str,
     w.advance(2000)
     t1 = w.now_ms + 100
     if p.get("tick"):
-        # let the periodic 10 s cache/history clean-up fall between the two askers (50 ms after the first)
+        # let the periodic 10 s cache/history clean-up fall between the two askers (50 ms after the first, or `tick_after`)
         t_birth = 1_000_000.0
-        t1 = t_birth + (int((w.now_ms + 200 - t_birth) // 10_000) + 1) * 10_000 - 50
+        t1 = t_birth + (int((w.now_ms + 1000 - t_birth) // 10_000) + 1) * 10_000 - p.get("tick_after", 50)
     gap, rel = p["gap"], p["rel"]  # rel: the FIRST asker's known answers relative to what the second asker knows at t2
     t2 = t1 + gap
     own_ptr = ("PTR", TA, 1, 4500, "own._a._tcp.local.")
@@ -169,7 +169,7 @@ def fam_suppress(p: Dict[str, Any], problems: List[str], w: World) -> Tuple[str,
 
     if heard:
         known_at_t2 = list(base) + [own_ptr]
-        first_ka = {"empty": [], "subset": [base[0]], "equal": known_at_t2, "superset": known_at_t2 + [ptr(9, 4500)],
+        first_ka = {"empty": [], "subset": [base[0]], "subset-b": [base[1]], "equal": known_at_t2, "superset": known_at_t2 + [ptr(9, 4500)],
                     "stale-held": known_at_t2 + [ptr(7, 4500)]}[rel]
         # (RFC 6762 s.7.3: suppressed only if the list holds no record this host "would not also put in its own" list - a
         # record it holds with half of its TTL gone is not one it would list, and nobody will answer it to the other asker)
@@ -199,7 +199,9 @@ def fam_suppress(p: Dict[str, Any], problems: List[str], w: World) -> Tuple[str,
         if p.get("earlier_ms"):
             # the same question with the same known answers was already heard from another neighbour a little earlier:
             # what counts for the 999 ms is the latest hearing
-            loop.call_at((t1 - p["earlier_ms"]) / 1000, inject, wire.query(qs, answers=first_ka, id_=76), "10.0.0.61")
+            # (... or with another list that this instance knows just as well: two askings to remember, neither covers the other)
+            ka_e = [base[0]] if p.get("earlier_ka") == "other" else first_ka
+            loop.call_at((t1 - p["earlier_ms"]) / 1000, inject, wire.query(qs, answers=ka_e, id_=76), "10.0.0.61")
     else:
         # first asker: a browser of this very instance, forced QM, cancelled right after its first query; it lists the
         # cache as it is at t1, so 'subset'/'superset' are produced by changing the cache between t1 and t2
@@ -449,6 +451,12 @@ def points(tier: str) -> List[Dict[str, Any]]:
                     if first == "heard" and second == "QM" and gap in (500, 999, 1000):
                         pts.append({"fam": "suppress", "first": first, "gap": gap, "rel": rel, "second": second,
                                     "heard_port": 40404})
+                    if first == "heard" and second == "QM" and rel == "subset" and gap in (500, 998, 999, 1000):
+                        # the periodic clean-up runs when the earlier of two remembered askings is over a second old and the
+                        # later one is not
+                        for e, ta in ((700, 400), (900, 200), (999, 50)):
+                            pts.append({"fam": "suppress", "first": first, "gap": gap, "rel": "subset-b", "second": second,
+                                        "earlier_ms": e, "earlier_ka": "other", "tick": True, "tick_after": ta})
                     if first in ("heard", "own") and second == "QM" and gap in (500, 999, 1000, 1001):
                         for b in (1, 200, gap - 1):
                             if 0 < b < gap:
